@@ -23,7 +23,6 @@ func FuzzVerifC18_Header(f *testing.F) {
 	f.Add(append(append([]byte{}, b...), 0xc8, 0x01, 0x01))
 	f.Add(append(append([]byte{}, b...), 0x80))
 	f.Add(b[:len(b)-8])
-	tg := verifC18HeaderTarget(f)
 	f.Fuzz(func(t *testing.T, b1 []byte) {
 		if len(b1) == 0 || len(b1) > 4096 {
 			return
@@ -36,6 +35,11 @@ func FuzzVerifC18_Header(f *testing.F) {
 		if err != nil || bytes.Equal(b0, b1) || len(b0) == 0 {
 			return
 		}
+		sm := verifC18NewHdrSigModel(len(b1)%2 == 0)
+		if sm.register(h) != nil {
+			return
+		}
+		tg := verifC18HeaderTarget(t, sm)
 		for _, delta := range []int{-1, 10} {
 			var mm marshal.Marshalizer = m
 			if delta >= 0 {
